@@ -7,6 +7,8 @@ from vlib import Case
 RULE = ("ops `scan` (real scanner vs the Lean scanner model, token by token), `compile` (scan -> parse -> compile in-process under catch_unwind with a watchdog): "
         "bounded-exhaustive over all strings of length <= 3 (quick) / 4 (thorough) from a 31-character alphabet chosen to hit every scanner branch, all token sequences of "
         "length <= 3 over every token kind and <= 5 over a 14-kind core, random token soup, and grammar-derived programs with random deletions/insertions/duplications; "
+        "op `pprog` (real parser vs the Lean program-level Pratt-parser model: same statement list, or both 'an error was reported', or both HANG) on grammar-derived statement programs, "
+        "their one-token mutants, token soup over the statement/expression alphabet and fixed edge cases; "
         "oracle = no panic, no hang; non-trivial = the text produced tokens / an AST / bytecode or diagnostics")
 ASSUMPTIONS = ["char::is_alphabetic / is_alphanumeric outside ASCII are approximated in the scanner model by explicit ranges; the correspondence uses only characters inside them",
                "the gate 'a program with diagnostics is not executed' is exercised end-to-end by the C24 engine (stdout must stay empty when stderr carries diagnostics)"]
